@@ -20,7 +20,9 @@ INVALID = ['unknown_name', 'foreign_block', 'event_to_cblock', 'filter_wrong_kin
            # the same name referenced before by something that accepts any kind of block
            'event_to_cblock_after_ref', 'filter_wrong_kind_after_ref',
            # references by name created between an explicit finalize() and the start
-           'late_unknown_event_dest', 'late_event_to_cblock']
+           'late_unknown_event_dest', 'late_event_to_cblock',
+           # a destination of the wrong kind given as a block object (refused at once)
+           'event_to_cblock_object']
 
 
 def models(tier, seed):
@@ -113,7 +115,13 @@ def _hdr(stim):
 def execute(stim):
     import edzed
     n = len(stim['blocks'])
-    name = lambda i: f'b{i}'
+    odd_names = len(repr(stim['blocks'])) % 3 == 0
+
+    def name(i):
+        # (some scripts use names with an inner '_not_': 'b1_not_b2' next to 'b1' and 'b2')
+        if odd_names and i >= 2:
+            return f'b{i - 1}_not_b{i}'
+        return f'b{i}'
     blks = {}
     events, ctrls = [], []
     lines = []
@@ -185,6 +193,8 @@ def execute(stim):
             edzed.DataEdit.add_output('x', 'cdest')
             cls = getattr(edzed, 'IfNotIitialized', None) or getattr(edzed, 'NotIfInitialized')
             cls('cdest')
+        elif inv == 'event_to_cblock_object':
+            events.append(edzed.Event(blks['spare'], 'put'))
         elif inv == 'event_to_cblock':
             edzed.Or('cdest').connect(name(1))
             blks[1]._output_events += (edzed.Event('cdest', 'put'),) if False else ()
